@@ -173,6 +173,27 @@ func VerifJobScript(template string, shellCmd string, argv []string,
 		&JobResources{Threads: threads, MemGB: memGB}, fqname, shellName)
 }
 
+// VerifJobScriptDebug is VerifJobScript for a job manager created with the
+// given debug setting (mrp --debug).
+func VerifJobScriptDebug(debug bool, template string, shellCmd string, argv []string,
+	envs map[string]string, mdPath, fqname, shellName string,
+	threads, memGB float64) string {
+	m := &RemoteJobManager{
+		config: jobManagerConfig{
+			jobSettings: &JobManagerSettings{
+				ThreadsPerJob: 1, MemGBPerJob: 1, ExtraVmemGB: 1,
+				ThreadEnvs: []string{"MRO_THREADS"},
+			},
+			jobTemplate:      template,
+			threadingEnabled: true,
+		},
+		debug: debug,
+	}
+	md := NewMetadata(fqname, mdPath)
+	return m.jobScript(shellCmd, argv, envs, md,
+		&JobResources{Threads: threads, MemGB: memGB}, fqname, shellName)
+}
+
 // VerifJobScripter returns a renderer of job scripts bound to one job manager,
 // as mrp has one; the harness calls it from several goroutines, as execJob
 // does when --maxjobs is set.
